@@ -39,7 +39,7 @@ pub fn main_wrap(prop: &str, run: fn(&mut Ctx)) {
     {
         let kib = mbvcore::stack_limit_kib();
         let uniform = ctx.opts.extra("uniform").is_some();
-        ctx.bound("environment", format!("main-thread stack limit {} KiB; `log` logger {}; exact-alignment poisoning allocator in the builder-side engines", kib, if uniform { "not installed in any configuration (cross-configuration run)" } else { "installed at level Trace in the dev-profile binaries (log macro arguments are evaluated), not installed in the release binaries" }));
+        ctx.bound("environment", format!("main-thread stack limit {} KiB; `log` logger {}; exact-alignment poisoning allocator in the builder-side engines", kib, if uniform { "installed at level Trace in all four configurations (cross-configuration run)" } else { "installed at level Trace in the dev-profile binaries (log macro arguments are evaluated), not installed in the release binaries" }));
     }
     // a panic that escapes a leaf is a defect of the harness, not a verdict: say where it came from
     let r = std::panic::catch_unwind(std::panic::AssertUnwindSafe(|| run(&mut ctx)));
